@@ -251,6 +251,7 @@ class Interp:
         self.own_members = {}         # class name -> members defined in the class itself
         self.class_bases = {}         # class name -> names of its base classes
         self._cls_stack = []
+        self._global_values = {}      # id(module-level expression) -> its (mutable) value, evaluated once per interpreter
         self.dataclasses = {}         # class name -> [(field, default expression or None)] of @dataclass classes
         self.module = None            # ast.Module of the analysed code: its top-level constants and functions resolve free names
         self.src = None               # SourceSet: lets `from mindsdb_sql.x import f` in that module resolve to f's source
@@ -571,12 +572,19 @@ class Interp:
             g_ = self._global(e.id)
             if g_ is not None:
                 if g_[0] == 'value':
+                    # a module-level object exists once: mutable ones (a set that a function updates and returns) keep their identity within one interpreter
+                    key = id(g_[1])
+                    if key in self._global_values:
+                        return self._global_values[key]
                     saved = self.module
                     self.module = g_[2]
                     try:
-                        return self.ev(g_[1], Env())
+                        v = self.ev(g_[1], Env())
                     finally:
                         self.module = saved
+                    if isinstance(v, (list, dict, set)):
+                        self._global_values[key] = v
+                    return v
                 return Closure(g_[1], Env(), self)
             if e.id[:1].isupper() or e.id in ('ast', 'sa', 're', 'copy', 'utils', 'steps', 'dt', 'datetime', 'textwrap', 'functools', 'itertools', 'operator') or e.id in {k.split('.')[0] for k in self.stubs}:
                 return ClassRef(e.id)       # a class / module of the repository: only used as callee or in isinstance
